@@ -190,6 +190,10 @@ B1 = '''fn work(a: int, b: int, s: string, t: bool) -> int {
     for k in (range 0 2) {
         @@ for-body ret=int imm=x:int,nm:string par=b:int,t:bool
         set y (+ y k)
+        if (> y 1) {
+            @@ nested ret=int imm=x:int,ok:bool par=a:int,s:string
+            set y (+ y 1)
+        }
     }
     let u1: int = (i2i <<arg-user@let:int|x>>)
     let u2: bool = (ib2b 1 <<arg-user@let:bool|ok>>)
@@ -197,6 +201,9 @@ B1 = '''fn work(a: int, b: int, s: string, t: bool) -> int {
     (vd <<arg-user@stmt:int|y>>)
     (println (i2i <<arg-user@println:int|x>>))
     (println (b2s <<arg-user@println:bool|fg>>))
+    (b2i <<arg-user@stmt:bool|ok>>)
+    (println (not <<operand@println:bool|ok>>))
+    (println (c2i <<arg-user@println:Color|Color.Green>>))
     let v1: int = (abs <<arg-builtin@let:int|y>>)
     let v2: int = (str_length <<arg-builtin@let:string|acc>>)
     (println (abs <<arg-builtin@println:int|(- 0 x)>>))
@@ -276,6 +283,11 @@ B2 = '''fn main() -> int {
     (s2s <<arg-user@stmt:string|s>>)
     (println (s2i <<arg-user@println:string|d1>>))
     (println (ii2i 1 <<arg-user@println:int|d3>>))
+    (println (b2i <<arg-user@println:bool|q>>))
+    (b2b <<arg-user@stmt:bool|mb>>)
+    let d6: bool = (b2b <<arg-user@let:bool|q>>)
+    let ba: array<bool> = [d6, <<elem@let:bool|mb>>]
+    (println (at ba 1))
     let e1: string = (int_to_string <<arg-builtin@let:int|d4>>)
     let e2: int = (max 1 <<arg-builtin@let:int|d5>>)
     let e3: bool = (str_contains d2 <<arg-builtin@let:string|"k">>)
@@ -333,6 +345,11 @@ B3 = '''fn judge(a: int, w: string) -> bool {
             let h: int = (* <<operand@let:int|g>> 2)
             let arr: array<int> = [h, <<elem@let:int|f>>]
             let pq: P = P { x: <<field@let:int|h>>, y: g }
+            let eb: bool = (ib2b f <<arg-user@let:bool|e>>)
+            let ea: array<bool> = [eb, <<elem@let:bool|e>>]
+            let ec: bool = (or <<operand@let:bool|eb>> (at ea 1))
+            (println (b2s <<arg-user@println:bool|ec>>))
+            (println (and true <<operand@println:bool|ec>>))
             (vd <<arg-user@stmt:int|pq.x>>)
             (println (at arr 1))
             if (== <<operand@cond:int|h>> 100) {
@@ -345,8 +362,10 @@ B3 = '''fn judge(a: int, w: string) -> bool {
     let mut z: int = 0
     for q in (range 0 3) {
         let mut r: int = 0
+        @@ for-body ret=bool imm=lim:int par=a:int,w:string
         while <<cond-while:bool|(< r q)>> {
             set r (+ r 1)
+            @@ while-body ret=bool imm=lim:int par=a:int,w:string
             set z <<set:int|(+ z r)>>
             if (> r 8) {
                 break
@@ -551,6 +570,7 @@ B5 = '''fn dist(p: P, q: P, c: Color) -> int {
     let mut fz: float = 0.5
     set fz <<set:float|(+ fz fy)>>
     for i in (range 0 3) {
+        @@ for-body ret=int imm=dx:int,same:bool par=p:P,c:Color
         set tot <<set:int|(+ tot (at xs i))>>
         if <<cond-if:bool|(and same (> tot 1))>> {
             @@ nested ret=int imm=dx:int,k:int,t:bool par=q:P
@@ -561,6 +581,12 @@ B5 = '''fn dist(p: P, q: P, c: Color) -> int {
     (println <<arg-println:bool|t>>)
     (println (at fs 0))
     (println (c2i <<arg-user@println:Color|c>>))
+    (println (b2i <<arg-user@println:bool|t>>))
+    (b2s <<arg-user@stmt:bool|same>>)
+    let tb: bool = (b2b <<arg-user@let:bool|t>>)
+    let tc: array<bool> = [<<elem@let:bool|tb>>, same]
+    (println (or (at tc 0) <<operand@println:bool|same>>))
+    (println (str_length <<arg-builtin@println:string|"abc">>))
     (println (p2i <<arg-user@println:P|q>>))
     (i2p <<arg-user@stmt:int|tot>>)
     if (< <<operand@cond:int|dx>> dy) {
@@ -584,7 +610,7 @@ fn hue(k: int) -> Color {
     if (> k 0) {
         return <<return:Color|Color.Green>>
     }
-    return Color.Red
+    return <<return:Color|Color.Red>>
 }
 shadow hue { assert (== (hue 1) Color.Green) }
 fn half(x: float) -> float {
@@ -765,14 +791,16 @@ def r_operand_ordering(T, D):
     if T != "bool":
         return []
     return [("< int,string", [], '(< 3 "zq")'), (">= string,int", [], '(>= "zq" 3)'),
-            ("> int,bool", [], "(> 3 true)"), ("<= bool,int", [], "(<= false 3)")]
+            ("> int,bool", [], "(> 3 true)"), ("<= bool,int", [], "(<= false 3)"),
+            ("< string,bool", [], '(< "zq" true)'), ("<= float,string", [], '(<= 2.5 "zq")')]
 
 
 def r_operand_equality(T, D):
     if T != "bool":
         return []
     return [("== int,string", [], '(== 3 "zq")'), ("!= string,int", [], '(!= "zq" 3)'),
-            ("== bool,int", [], "(== true 3)"), ("!= int,bool", [], "(!= 3 false)")]
+            ("== bool,int", [], "(== true 3)"), ("!= int,bool", [], "(!= 3 false)"),
+            ("== string,bool", [], '(== "zq" true)'), ("!= float,string", [], '(!= 2.5 "zq")')]
 
 
 def r_operand_logic(T, D):
@@ -780,19 +808,22 @@ def r_operand_logic(T, D):
         return []
     d = _d(D, T)
     return [("and bool,int", [], "(and %s 7)" % d), ("or string,bool", [], '(or "zq" %s)' % d),
-            ("and int,bool", [], "(and 7 %s)" % d), ("or bool,string", [], '(or %s "zq")' % d)]
+            ("and int,bool", [], "(and 7 %s)" % d), ("or bool,string", [], '(or %s "zq")' % d),
+            ("and float,bool", [], "(and 2.5 %s)" % d), ("or bool,int", [], "(or %s 0)" % d)]
 
 
 def r_operand_not(T, D):
     if T != "bool":
         return []
-    return [("not int", [], "(not 7)"), ("not string", [], '(not "zq")')]
+    return [("not int", [], "(not 7)"), ("not string", [], '(not "zq")'), ("not int 0", [], "(not 0)"),
+            ("not float", [], "(not 2.5)"), ("not empty string", [], '(not "")'), ("not int call", [], "(not (i2i 1))")]
 
 
 def r_operand_neg(T, D):
     if T != "int":
         return []
-    return [("neg string", [], '(- "zq")'), ("neg bool", [], "(- true)")]
+    return [("neg string", [], '(- "zq")'), ("neg bool", [], "(- true)"), ("neg empty string", [], '(- "")'),
+            ("neg bool false", [], "(- false)")]
 
 
 def r_argtype_user(T, D):
@@ -839,7 +870,8 @@ def r_arity_builtin(T, D):
 
 
 def r_unknown_var(T, D):
-    return [("name zz_nosuch", [], "zz_nosuch"), ("name nosuch9", [], "nosuch9")]
+    return [("name zz_nosuch", [], "zz_nosuch"), ("name nosuch9", [], "nosuch9"), ("name undefined_total", [], "undefined_total"),
+            ("name x9z", [], "x9z")]
 
 
 def r_unknown_fn(T, D):
@@ -868,19 +900,21 @@ def r_scope_otherfn(T, D):
 
 def r_undefined_field(T, D):
     pre = ["let zp: P = P { x: 1, y: 2 }"]
-    return [("field zp.nosuch", pre, "zp.nosuch"), ("field zp.z", pre, "zp.z")]
+    return [("field zp.nosuch", pre, "zp.nosuch"), ("field zp.z", pre, "zp.z"), ("field zp.X", pre, "zp.X"),
+            ("field zp.xx", pre, "zp.xx")]
 
 
 def r_undefined_variant(T, D):
     if T == "Color":
-        return [("enum variant", [], "Color.Nosuch"), ("enum variant (case)", [], "Color.red")]
+        return [("enum variant", [], "Color.Nosuch"), ("enum variant (case)", [], "Color.red"), ("enum variant Purple", [], "Color.Purple")]
     if T == "Sh":
-        return [("union variant", [], "Sh.Nosuch { r: 1 }"), ("union variant Tri", [], "Sh.Tri { s: 2 }")]
+        return [("union variant", [], "Sh.Nosuch { r: 1 }"), ("union variant Tri", [], "Sh.Tri { s: 2 }"),
+                ("union variant (case)", [], "Sh.circle { r: 1 }")]
     return []
 
 
 def r_void_use(T, D):
-    return [("call (vd 1)", [], "(vd 1)")]
+    return [("call (vd 1)", [], "(vd 1)"), ("call (vd 0)", [], "(vd 0)"), ("call (vd 42)", [], "(vd 42)")]
 
 
 def r_consumed_use(T, D):
@@ -899,7 +933,8 @@ def r_consumed_use(T, D):
 def r_extern_nounsafe(T, D):
     if T != "int":
         return []
-    return [("call (labs 3)", [], "(labs 3)"), ("call (labs D)", [], "(labs %s)" % _d(D, "int"))]
+    return [("call (labs 3)", [], "(labs 3)"), ("call (labs D)", [], "(labs %s)" % _d(D, "int")), ("call (labs 0)", [], "(labs 0)"),
+            ("call (labs -4)", [], "(labs -4)")]
 
 
 EXPR_RULES = [
@@ -955,16 +990,19 @@ def stmt_variants(rule, pt):
     if rule == "set-immutable-local":
         for n, T in pt.imm:
             for v in LIT.get(T, [])[:2]:
-                out.append(("set %s:%s" % (n, T), ["set %s %s" % (n, v)]))
+                out.append(("set %s:%s = %s" % (n, T, v), ["set %s %s" % (n, v)]))
     elif rule == "set-parameter":
         for n, T in pt.par:
             for v in LIT.get(T, [])[:2]:
-                out.append(("set %s:%s" % (n, T), ["set %s %s" % (n, v)]))
+                out.append(("set %s:%s = %s" % (n, T, v), ["set %s %s" % (n, v)]))
     elif rule == "set-immutable-global":
         out.append(("set gimm", ["set gimm 5"]))
         out.append(("set gimm expr", ["set gimm (+ gimm 1)"]))
+        out.append(("set gimm 0", ["set gimm 0"]))
     elif rule == "set-unknown-var":
         out.append(("set zz_nosuch", ["set zz_nosuch 5"]))
+        out.append(("set nosuch9", ["set nosuch9 0"]))
+        out.append(("set zz_flag", ["set zz_flag true"]))
     elif rule == "return-type":
         if pt.ret == "void":
             out.append(("return 5 in void fn", ["return 5"]))
@@ -977,6 +1015,8 @@ def stmt_variants(rule, pt):
                                          "    Sq(zq) => { set gmut zq.s }", "    Nosuch(zn) => { set gmut 0 }", "}"]))
         out.append(("arm Tri instead of Sq", ["let zs: Sh = Sh.Circle { r: 1 }", "match zs {", "    Circle(zc) => { set gmut zc.r }",
                                               "    Tri(zq) => { set gmut 0 }", "}"]))
+        out.append(("extra arm circle (case)", ["let zs: Sh = Sh.Sq { s: 1 }", "match zs {", "    Circle(zc) => { set gmut zc.r }",
+                                                "    Sq(zq) => { set gmut zq.s }", "    circle(zn) => { set gmut 1 }", "}"]))
     return out
 
 
